@@ -973,6 +973,21 @@ class Interp:
                     raise Raised(type(ex).__name__)
         if recv is None and meth == "type" and len(args) == 1 and not isinstance(args[0], (Residual, Obj)):
             return Residual(type(args[0]).__name__)
+        # reflection with a constant name on an abstract object: the same store the attribute syntax uses
+        if recv is None and meth in ("getattr", "hasattr", "setattr") and len(args) >= 2 and isinstance(args[0], Obj) and isinstance(args[1], str):
+            k = f"{args[0].name}.{args[1]}"
+            if meth == "setattr" and len(args) == 3:
+                self.store[k] = args[2]
+                self.path.trace.append(("set", k, args[2]))
+                return None
+            ok, v = self.lookup(k)
+            if meth == "hasattr" and ok:
+                return True
+            if meth == "getattr":
+                if ok:
+                    return v
+                if len(args) == 3:
+                    return args[2]
         # builtins on concrete values
         if recv is None and meth == "str" and len(args) == 1 and isinstance(args[0], Obj):
             sv = self.str_of(args[0])
